@@ -16,9 +16,15 @@
 (*   ZStep(Z, c)  successor state and the lines the hooks record for it     *)
 (*                (fired / ev / act / exit)                                 *)
 (*                                                                         *)
-(* Deliberate abstractions: aggregate base delays and the pps bottleneck    *)
-(* are not modelled (no base shifting); the order among same-time,          *)
-(* same-priority candidates is nondeterministic. `Variant`: "F7" bypass     *)
+(* Aggregate base delays and the pps bottleneck: WHEN the code pushes an    *)
+(* aggregate delay and by how much (delay.rs heuristics with 1 ms / 100 ms  *)
+(* windows) and how much extra delay the bottleneck adds to a packet are    *)
+(* inputs of a step (c.agg, c.extra: none / 0 in model checking, the logged *)
+(* amounts in trace validation); what happens to them afterwards - the two  *)
+(* pending entries per push and their due times, popping them before        *)
+(* anything else that is due, shifting the base trace of that side - is     *)
+(* modelled. The order among same-time, same-priority candidates is         *)
+(* nondeterministic. `Variant`: "F7" bypass     *)
 (* flag overwritten, "F8" zero-duration UpdateTimer dropped; zero-duration  *)
 (* blocking (F6, known finding) is modelled as coded.                       *)
 (***************************************************************************)
@@ -54,7 +60,9 @@ StartOf(tr, delay) ==
 ZInit(tr, cf, budget) ==
   [cf |-> cf, now |-> StartOf(tr, cf.delay),
    sd |-> <<InitSide(BaseOf(tr, 1, cf.delay), cf.nc), InitSide(BaseOf(tr, 2, cf.delay), cf.ns)>>,
-   left |-> budget, nev |-> 0, nid |-> 1, done |-> FALSE]
+   left |-> budget, nev |-> 0, nid |-> 1, done |-> FALSE,
+   agg |-> <<0, 0>>,          \* aggregate base delay per side
+   pending |-> {}]            \* pending aggregate delays [t, d, s, id]
 
 NMach(Z, s) == IF s = 1 THEN Z.cf.nc ELSE Z.cf.ns
 
@@ -71,18 +79,21 @@ BlkCands(Z) == {s \in Sides : Z.sd[s].blk.on}
 Held(Z, s, e) == e.e = "TunnelSent" /\ Z.sd[s].blk.on /\ ~(Z.sd[s].byp /\ e.bp)
 EffTime(Z, s, e) == IF Held(Z, s, e) /\ Z.sd[s].blk.until > e.t THEN Z.sd[s].blk.until ELSE e.t
 AtLeastNow(Z, t) == IF t < Z.now THEN Z.now ELSE t
+BaseTime(Z, s) == Z.sd[s].base[1] + Z.agg[s]
 QCandTimes(Z) == UNION {{EffTime(Z, s, e) : e \in Z.sd[s].q}
-                        \cup (IF Z.sd[s].base # <<>> THEN {Z.sd[s].base[1]} ELSE {}) : s \in Sides}
+                        \cup (IF Z.sd[s].base # <<>> THEN {BaseTime(Z, s)} ELSE {}) : s \in Sides}
 ST(Z) == MinOr({Z.sd[c[1]].act[c[2]].due : c \in ActCands(Z)})
 IT(Z) == MinOr({Z.sd[c[1]].tim[c[2]].due : c \in TimCands(Z)})
 BT(Z) == MinOr({Z.sd[s].blk.until : s \in BlkCands(Z)})
 QT(Z) == LET m == MinOr(QCandTimes(Z)) IN IF m = Inf THEN Inf ELSE AtLeastNow(Z, m)
-Nothing(Z) == ST(Z) = Inf /\ IT(Z) = Inf /\ BT(Z) = Inf /\ QT(Z) = Inf
-\* priorities at equal times: blocking expiry, queue, internal timer, action timer
-BlkFirst(Z) == BT(Z) <= ST(Z) /\ BT(Z) <= IT(Z) /\ BT(Z) <= QT(Z)
-QueueNext(Z) == ~BlkFirst(Z) /\ QT(Z) <= ST(Z) /\ QT(Z) <= IT(Z)
-TimerNext(Z) == ~BlkFirst(Z) /\ ~QueueNext(Z) /\ IT(Z) <= ST(Z)
-ActionNext(Z) == ~BlkFirst(Z) /\ ~QueueNext(Z) /\ ~TimerNext(Z)
+NT(Z) == LET m == MinOr({x.t : x \in Z.pending}) IN IF m = Inf THEN Inf ELSE AtLeastNow(Z, m)
+Nothing(Z) == ST(Z) = Inf /\ IT(Z) = Inf /\ BT(Z) = Inf /\ QT(Z) = Inf /\ NT(Z) = Inf
+\* priorities at equal times: aggregate delay, blocking expiry, queue, internal timer, action timer
+AggFirst(Z) == NT(Z) # Inf /\ NT(Z) <= ST(Z) /\ NT(Z) <= IT(Z) /\ NT(Z) <= BT(Z) /\ NT(Z) <= QT(Z)
+BlkFirst(Z) == ~AggFirst(Z) /\ BT(Z) <= ST(Z) /\ BT(Z) <= IT(Z) /\ BT(Z) <= QT(Z)
+QueueNext(Z) == ~AggFirst(Z) /\ ~BlkFirst(Z) /\ QT(Z) <= ST(Z) /\ QT(Z) <= IT(Z)
+TimerNext(Z) == ~AggFirst(Z) /\ ~BlkFirst(Z) /\ ~QueueNext(Z) /\ IT(Z) <= ST(Z)
+ActionNext(Z) == ~AggFirst(Z) /\ ~BlkFirst(Z) /\ ~QueueNext(Z) /\ ~TimerNext(Z)
 
 ---------------------------------------------------------------------------
 \* lines
@@ -92,10 +103,14 @@ ActLine(c, t, a, m) == [k |-> "act", c |-> c, t |-> t,
                                timer |-> a.timer, timeout |-> a.timeout, duration |-> a.duration]]
 FiredLine(c, m, t, w) == [k |-> "fired", c |-> c, m |-> m, t |-> t, w |-> w]
 ExitLine(reason, it) == [k |-> "exit", reason |-> reason, it |-> it, len |-> it]
+AggPopLine(c, d) == [k |-> "aggpop", c |-> c, d |-> d]
+AggLine(c, d) == [k |-> "agg", c |-> c, d |-> d]
+RecvLine(c, t, p) == [k |-> "recv", c |-> c, t |-> t, p |-> p]
 
 ---------------------------------------------------------------------------
-\* choices: [kind, s, i, ev, f]
-Choice(kind, s, i, ev, f) == [kind |-> kind, s |-> s, i |-> i, ev |-> ev, f |-> f]
+\* choices: [kind, s, i, ev, f, agg, extra]; agg = amount of an aggregate delay pushed by this
+\* step (-1 none), extra = bottleneck delay added to the packet sent by this step
+Choice(kind, s, i, ev, f) == [kind |-> kind, s |-> s, i |-> i, ev |-> ev, f |-> f, agg |-> -1, extra |-> 0]
 NoEv == Ev(0, "-", -1, 0, FALSE, FALSE, FALSE)
 
 \* the events that can be processed next, as <<side, event>>; base heads are NormalSent with id 0
@@ -103,7 +118,7 @@ QueueCands(Z) ==
   {<<s, e>> \in UNION {{<<x, y>> : y \in Z.sd[x].q} : x \in Sides} :
      AtLeastNow(Z, EffTime(Z, s, e)) = QT(Z)}
   \cup {<<s, Ev(0, "NormalSent", -1, QT(Z), FALSE, FALSE, FALSE)>> : s \in
-          {x \in Sides : Z.sd[x].base # <<>> /\ AtLeastNow(Z, Z.sd[x].base[1]) = QT(Z)}}
+          {x \in Sides : Z.sd[x].base # <<>> /\ AtLeastNow(Z, BaseTime(Z, x)) = QT(Z)}}
 \* ties between the sides' expiries go to the server
 BlkSide(Z) == IF 2 \in BlkCands(Z) /\ Z.sd[2].blk.until = BT(Z) THEN 2 ELSE 1
 
@@ -111,6 +126,8 @@ BlkSide(Z) == IF 2 \in BlkCands(Z) /\ Z.sd[2].blk.until = BT(Z) THEN 2 ELSE 1
 ZChoices(Z, Oracle(_, _)) ==
   IF Z.done THEN {}
   ELSE IF Nothing(Z) \/ Z.nev >= Z.cf.maxEvents THEN {Choice("finish", 1, 0, NoEv, <<>>)}
+  ELSE IF AggFirst(Z) THEN
+         {Choice("aggpop", x.s, x.id, NoEv, <<>>) : x \in {y \in Z.pending : AtLeastNow(Z, y.t) = NT(Z)}}
   ELSE IF BlkFirst(Z) THEN
          {Choice("blk", BlkSide(Z), 0, NoEv, f) : f \in Oracle(Z, BlkSide(Z))}
   ELSE IF QueueNext(Z) THEN
@@ -145,7 +162,15 @@ Apply(S, f, i, t, acc) ==
                                  !.begins = IF sets THEN Append(@, i - 1) ELSE @])
 
 \* main loop body: event e picked on side s at time t, queues already updated in Z0
-Process(Z0, s, e, t, f) ==
+\* the two pending entries of one push_aggregate_delay(B) at time T on side s
+Pushed(Z0, s, T, B) ==
+  LET D == Z0.cf.delay
+      off(k) == IF k * D > B THEN k * D - B ELSE 0
+  IN IF B < 0 THEN {}
+     ELSE {[t |-> T + off(IF s = 1 THEN 4 ELSE 1), d |-> B, s |-> 1, id |-> Z0.nid + 30],
+           [t |-> T + off(IF s = 1 THEN 3 ELSE 4), d |-> B, s |-> 2, id |-> Z0.nid + 31]}
+
+Process(Z0, s, e, t, f, agg, extra, aggFirst) ==
   LET other == Other(s)
       Sd0 == Z0.sd
       nid == Z0.nid
@@ -163,7 +188,7 @@ Process(Z0, s, e, t, f) ==
                ELSE [Sd0 EXCEPT ![s].q = @ \cup {Ev(nid, "TunnelSent", -1, t, TRUE, e.bp, e.rp)}]
           [] e.e = "TunnelSent" ->
                [Sd0 EXCEPT ![other].q = @ \cup {Ev(nid, "TunnelRecv", -1,
-                                                   t + Z0.cf.delay,
+                                                   t + Z0.cf.delay + extra,
                                                    e.p, FALSE, FALSE)}]
           [] e.e = "TunnelRecv" ->
                [Sd0 EXCEPT ![s].q = @ \cup {Ev(nid, IF e.p THEN "PaddingRecv" ELSE "NormalRecv", -1, t, e.p, FALSE, FALSE)}]
@@ -174,18 +199,26 @@ Process(Z0, s, e, t, f) ==
                                          j \in 1..Len(r.acc.begins)}]
       Sd2 == [Sd1 EXCEPT ![s] = S2]
       used == Len(r.acc.acts)
-      lines == <<EvLine(IsC(s), e.e, e.m, t, e.p, e.bp, e.rp)>>
+      aggl == IF agg >= 0 THEN <<AggLine(IsC(s), agg)>> ELSE <<>>
+      lines == (IF aggFirst THEN aggl ELSE <<>>)
+               \o <<EvLine(IsC(s), e.e, e.m, t, e.p, e.bp, e.rp)>>
+               \o (IF aggFirst THEN <<>> ELSE aggl)
+               \o (IF e.e = "TunnelSent" THEN <<RecvLine(IsC(other), t + Z0.cf.delay + extra, e.p)>> ELSE <<>>)
                \o [j \in 1..used |-> ActLine(IsC(s), t, r.acc.acts[j][2], r.acc.acts[j][1])]
       \* stop test (no_normal_packets)
       quiet(S) == S.base = <<>> /\ \A x \in S.q : x.e # "TunnelSent" /\ x.e # "TunnelRecv" /\ ~x.p
       stop == ~Z0.cf.cont /\ quiet(Sd2[1]) /\ quiet(Sd2[2])
   IN [Z |-> [Z0 EXCEPT !.sd = Sd2, !.left = @ - used, !.done = stop, !.now = t,
-                       !.nev = @ + 1, !.nid = @ + 40],
+                       !.nev = @ + 1, !.nid = @ + 40,
+                       !.pending = @ \cup Pushed(Z0, s, t, agg)],
       lines |-> IF stop THEN Append(lines, ExitLine("all_normal_processed", Z0.nev + 1)) ELSE lines]
 
 ZStep(Z, c) ==
   CASE c.kind = "finish" ->
          [Z |-> [Z EXCEPT !.done = TRUE], lines |-> <<ExitLine("end", Z.nev)>>]
+    [] c.kind = "aggpop" ->
+         LET x == CHOOSE y \in Z.pending : y.id = c.i IN
+         [Z |-> [Z EXCEPT !.pending = @ \ {x}, !.agg[x.s] = @ + x.d], lines |-> <<AggPopLine(IsC(x.s), x.d)>>]
     [] c.kind = "timer" ->
          LET t == IT(Z) IN
          [Z |-> [Z EXCEPT !.sd[c.s].tim[c.i] = NoT,
@@ -214,10 +247,10 @@ ZStep(Z, c) ==
     [] c.kind = "blk" ->
          LET t == AtLeastNow(Z, BT(Z))
              Z0 == [Z EXCEPT !.sd[c.s].blk = [on |-> FALSE, until |-> 0]]
-         IN Process(Z0, c.s, Ev(0, "BlockingEnd", -1, t, FALSE, FALSE, FALSE), t, c.f)
+         IN Process(Z0, c.s, Ev(0, "BlockingEnd", -1, t, FALSE, FALSE, FALSE), t, c.f, c.agg, 0, TRUE)
     [] c.kind = "queue" ->
          LET t == QT(Z)
              Z0 == IF c.ev.id = 0 THEN [Z EXCEPT !.sd[c.s].base = Tail(@)]
                    ELSE [Z EXCEPT !.sd[c.s].q = @ \ {c.ev}]
-         IN Process(Z0, c.s, c.ev, t, c.f)
+         IN Process(Z0, c.s, c.ev, t, c.f, c.agg, c.extra, FALSE)
 =============================================================================
